@@ -2,7 +2,8 @@
    F <le> <header> <control> <body...>   -> full <hex of the complete output>
    W <kind> <transient> <k>              -> <write> <flush> <bytes at sink> <sink calls> p<sink content is a prefix>
    T <text>                              -> text <len>
-   R <kind> <k> <chunk> <healthy class>  -> ok | inj | other   (class of Read's error) *)
+   R <kind> <k> <chunk> <healthy class of text[:k]> <healthy class of the empty input>
+                                         -> ok | inj | other   (class of Read's error) *)
 open Model
 open Conv
 
@@ -41,7 +42,7 @@ let () =
     | ["T"; h] ->
         text := bytes_of_hex h;
         Printf.printf "text %d\n" (List.length !text)
-    | ["R"; kind; k; chunk; hc] ->
+    | ["R"; kind; k; chunk; hc; hc0] ->
         let e = if kind = "ueof" then RUnexpectedEOF else RInj in
         let k = int_of_string k in
         let src = failing_source !text (nat_of_int k) (nat_of_int (int_of_string chunk)) e in
@@ -52,5 +53,6 @@ let () =
          | RParsed d ->
              (* no I/O error surfaces: Read behaves as on a healthy input made of d *)
              if List.length d = k then print_endline hc
+             else if d = [] then print_endline hc0
              else Printf.printf "parsed-%d-bytes-not-%d\n" (List.length d) k)
     | _ -> print_endline "?")
